@@ -316,8 +316,12 @@ class C03(core.Check):
             return self.check_single_of_double(x, soft, hard)
         if op in ('hex', 'oct'):
             r = M.round_half_away(x)
+            digits = [0, 3] + list((b'%X' if op == 'hex' else b'%o') % (r & 0xffff))
             if -32768 <= r <= 65535:
-                exp = [0, 3] + list((b'%X' if op == 'hex' else b'%o') % (r & 0xffff))
+                exp = digits
+            elif -65536 <= r < -32768:
+                # no clause of the property (the code wraps these like the 16-bit patterns; GW: Overflow)
+                exp = out if out in (digits, [1, 6]) else [1, 6]
             else:
                 exp = [1, 6]
             if out != exp:
@@ -334,6 +338,16 @@ class C03(core.Check):
 
     def describe(self, case):
         return case
+
+    def shrink_candidates(self, case):
+        """byte patterns have fixed widths: only try zeroing low mantissa bytes"""
+        v = case.get('v')
+        if v and v[0] in (4, 8):
+            for i in range(1, len(v) - 2):
+                if v[i]:
+                    d = dict(case)
+                    d['v'] = v[:i] + [0] + v[i + 1:]
+                    yield d
 
 
 CHECK = C03
